@@ -31,12 +31,40 @@ impl TlsBuilder {
 pub struct StdTcp { pub id: int }
 impl StdTcp { #[verifier::external_body] pub fn set_nonblocking(&self, b: bool) -> (r: Result<()>) { unimplemented!() } }
 pub enum StdStream { Tcp(StdTcp), Unix(u8), Invalid }
-pub struct LdapConnSettings { pub connector: Option<TlsConnector>, pub starttls: bool, pub no_tls_verify: bool, pub std_stream: Option<StdStream> }
+pub struct LdapConnSettings { pub conn_timeout: Option<Duration>, pub connector: Option<TlsConnector>, pub starttls: bool, pub no_tls_verify: bool, pub std_stream: Option<StdStream> }
+pub struct Duration { pub d: u64 }
 impl LdapConnSettings {
+// the builder-style setters: each replaces exactly its own setting (what a caller "explicitly asked for" is what is stored)
+//@lift name=LdapConnSettings::set_no_tls_verify file=src/conn.rs impl="impl\s+LdapConnSettings\s*\{" fn=set_no_tls_verify
+//@ ret r
+//@ spec
+    ensures r == (LdapConnSettings { no_tls_verify: no_tls_verify, ..self }), //# C17.verification_is_switched_off_only_by_the_callers_own_flag
+//@end
+//@lift name=LdapConnSettings::set_connector file=src/conn.rs impl="impl\s+LdapConnSettings\s*\{" fn=set_connector
+//@ ret r
+//@ spec
+    ensures r == (LdapConnSettings { connector: Some(connector), ..self }), //# C17.a_custom_connector_replaces_only_the_connector
+//@end
+//@lift name=LdapConnSettings::set_std_stream file=src/conn.rs impl="impl\s+LdapConnSettings\s*\{" fn=set_std_stream
+//@ ret r
+//@ spec
+    ensures r == (LdapConnSettings { std_stream: Some(stream), ..self }), //# C18.a_pre_opened_stream_replaces_only_the_stream_setting
+//@end
+//@lift name=LdapConnSettings::set_conn_timeout file=src/conn.rs impl="impl\s+LdapConnSettings\s*\{" fn=set_conn_timeout
+//@ ret r
+//@ spec
+    ensures r == (LdapConnSettings { conn_timeout: Some(timeout), ..self }), //# C18.the_connection_timeout_setter_replaces_only_the_timeout
+//@end
+//@lift name=LdapConnSettings::set_starttls::tls file=src/conn.rs impl="impl\s+LdapConnSettings\s*\{" fn=set_starttls
+//@ sub "fn set_starttls(" => "fn set_starttls_real("
+//@ ret r
+//@ spec
+    ensures r == (LdapConnSettings { starttls: starttls, ..self }), //# C17.starttls_is_requested_exactly_when_the_caller_set_it
+//@end
     // V-connsetup proves both on the real text (C18 unit)
     #[verifier::external_body] pub fn starttls(&self) -> (r: bool) ensures r == self.starttls { unimplemented!() }
     #[verifier::external_body] pub fn set_starttls(self, starttls: bool) -> (r: Self)
-        ensures r.starttls == starttls, r.connector == self.connector, r.no_tls_verify == self.no_tls_verify, r.std_stream == self.std_stream { unimplemented!() }
+        ensures r == (LdapConnSettings { starttls: starttls, ..self }) { unimplemented!() }
 }
 // a TCP stream: a ghost identity, and where it came from (connected by the library to an address, or handed in pre-opened)
 pub struct TcpStream { pub id: int, pub peer: Seq<char>, pub pre_opened: bool }
